@@ -255,8 +255,13 @@ def rand_pfile(rng, rich=True):
                         # kept as a fixed schema): declare the default
                         f.dflt = ('V', first)
             if is_nonfinite(f):
-                # inf / nan defaults are emitted verbatim and do not compile (finding F12b, kept as a fixed schema)
-                f.dflt = ('V', 0x3fc00000 if f.type == T_FLOAT else 0x3ff8000000000000)
+                # the .proto text can only say inf, -inf and nan (finding F12b, repaired): keep the infinities, and make
+                # every NaN the one `nan` stands for
+                v = f.dflt[1]
+                if f.type == T_FLOAT and (v & 0x7fffff):
+                    f.dflt = ('V', 0x7fc00000)
+                elif f.type == T_DOUBLE and (v & 0xfffffffffffff):
+                    f.dflt = ('V', 0x7ff8000000000000)
             o = {}
             if rich and f.type == T_STRING and (f.dflt is None or f.dflt[0] == 'E') and rng.random() < 0.15:
                 o['sab'] = True
@@ -544,6 +549,7 @@ def corpus_pfiles():
     P.infile = {0: 0}
     P.decl = {0: list(range(len(flds)))}
     out.append(('defaults', P))
+    out.append(('nonfinite', finding_pfile('F12b')))
     return out
 
 
